@@ -26,6 +26,7 @@ type Case struct {
 	ID       int             `json:"id"`
 	GRL      string          `json:"grl"`
 	RulesJS  json.RawMessage `json:"rules"`   // program AST for the monitor
+	Counted  json.RawMessage `json:"counted"` // the one counted method atom of the program, or {"k":"none"}
 	Removed  []string        `json:"removed"` // rules removed from the library before instantiation
 	Parts    []string        `json:"parts"`   // the same rules split over several resources (variant multi)
 	Variant  string          `json:"variant"` // fresh | reloaded | reloaded2 | second | multi
@@ -233,7 +234,7 @@ func runCall(c *Case, ci int, kb *ast.KnowledgeBase, em *Emitter, watchdog time.
 	w.F.hook = func(ev J) { em.Emit(ev) }
 	w.F.gate = gate
 	begin := J{"ev": "begin", "id": c.ID, "call": ci, "mode": cc.Mode, "rules": c.RulesJS, "facts": w.Snapshot(),
-		"max": cc.Max, "flag": cc.Flag, "variant": c.Variant, "profile": c.Profile}
+		"max": cc.Max, "flag": cc.Flag, "variant": c.Variant, "profile": c.Profile, "counted": c.Counted}
 	em.Emit(begin)
 	if cc.CancelAt == 0 && !cc.Deadline {
 		cancelled = true
